@@ -49,7 +49,72 @@ def configs(tier):
 
 def scenario(env, cfg):
     with patched(env):
+        if env.mode != 'sym' and cfg['group'] != 'explainer_offset':
+            # a refuted rounding-model obligation is confirmed (or not) by a real binary64 experiment on the real class
+            return _tracker_replay(env, cfg)
         return globals()['_' + cfg['group']](env, cfg)
+
+
+def _tracker_replay(env, cfg):
+    """real binary64 runs of the shipped trackers against exact rational arithmetic: streams with a large common offset
+    (up to 1e8) and unit spread, constant streams, alternating signs.  Bounds: the proved mean / smoothing invariants and,
+    for the variance, the classical Welford bound  |var_hat - var| <= 8 n u kappa var  with kappa = sqrt(1 + mean^2/var)."""
+    import random as _r
+    import math as _m
+    import sys
+    rng = _r.Random(5)
+    u = Fraction(1, 2 ** 53)
+    mods = [sys.modules[WelfordTracker.__module__], sys.modules[ExponentialSmoothingTracker.__module__]]
+    saved = [(m, m.__dict__.pop('float', None), m.__dict__.pop('int', None)) for m in mods]
+    try:
+        if cfg['group'].startswith('smooth'):
+            worst = Fraction(0)
+            for alpha in (1e-3, 0.1, 0.5, 1.0):
+                for B in (0.0, 1e8):
+                    t = ExponentialSmoothingTracker(alpha)
+                    s, mx = Fraction(0), Fraction(1)
+                    for i in range(300):
+                        v = B + rng.random()
+                        t.update(v)
+                        s = (1 - Fraction(alpha)) * s + Fraction(alpha) * Fraction(v)
+                        mx = max(mx, abs(Fraction(v)))
+                    err = abs(Fraction(float(t.get())) - s)
+                    worst = max(worst, err * Fraction(alpha) / (C_SMOOTH * u * mx))
+            env.claim('smoothing_error_invariant_4_u_over_alpha', worst <= 1,
+                      detail=f"binary64 run: error / (4 u max|v| / alpha) = {float(worst):.3g}")
+            return
+        worst_mean, worst_var, const_bad = Fraction(0), 0.0, None
+        for B in (0.0, 1e4, 2.0 ** 20, 1e8):
+            for n in (3, 50, 400):
+                t = WelfordTracker()
+                vals = [B + rng.random() for _ in range(n)]
+                for v in vals:
+                    t.update(v)
+                fr = [Fraction(v) for v in vals]
+                mean = sum(fr) / n
+                var = sum((a - mean) ** 2 for a in fr) / n
+                mx = max(abs(a) for a in fr)
+                worst_mean = max(worst_mean, abs(Fraction(float(t.mean)) - mean) / (C_MEAN * n * u * mx))
+                kappa = _m.sqrt(1 + float(mean * mean / var))
+                got = float(t.var)
+                rel = abs(Fraction(got) - var) / var if got == got else Fraction(10 ** 9)
+                worst_var = max(worst_var, float(rel) / (8 * n * float(u) * kappa))
+        for c in (0.1, 1e8 + 0.3, -3.7e11, 1 / 3):
+            t = WelfordTracker()
+            for _ in range(7):
+                t.update(c)
+            if float(t.var) != 0.0 or float(t.mean) != c:
+                const_bad = (c, float(t.mean), float(t.var))
+        env.claim('mean_error_invariant_4_n_u', worst_mean <= 1, detail=f"binary64 run: error / (4 n u max|v|) = {float(worst_mean):.3g}")
+        env.claim('variance_error_within_the_welford_bound', worst_var <= 1,
+                  detail=f"binary64 run, offsets up to 1e8, unit spread: relative variance error / (8 n u kappa) = {worst_var:.3g}")
+        env.claim('variance_exactly_zero', const_bad is None, detail=f"constant stream {const_bad}")
+    finally:
+        for m, fl, it in saved:
+            if fl is not None:
+                m.__dict__['float'] = fl
+            if it is not None:
+                m.__dict__['int'] = it
 
 
 def within(x, b):
